@@ -8,7 +8,7 @@
    Everything is stated over abstract tables (the formatter's `ttab` / `idtab`, the lexer's `tables`); the instance on
    the regenerated tables is a set of boolean obligations (Props/C14.v). *)
 From Coq Require Import List NArith ZArith Bool Arith Lia.
-From PV Require Import Lib.ListX Model.FmtLit Model.FmtPratt Model.Fmt Proofs.FmtLitProofs.
+From PV Require Import Lib.ListX Model.FmtLit Model.FmtPratt Model.Fmt Model.FmtLex Proofs.FmtLitProofs.
 From PV Require Model.Lexer Proofs.LexProofs Proofs.LexRelexDefs Proofs.LexRelex Proofs.LexForward.
 Import ListNotations.
 Local Open Scope N_scope.
@@ -16,8 +16,6 @@ Local Open Scope N_scope.
 Module L := Lexer.
 Module LF := LexForward.
 
-Definition printable_plain (c : N) : bool := in_range c 32 126 && negb (c =? 34) && negb (c =? 92) && negb (c =? 39).
-Definition param_char (c : N) : bool := in_ranges alnum_ascii c || (c =? 95) || (c =? 46).
 
 Lemma join_sp_app xs ys : xs <> [] -> ys <> [] -> LF.join_sp (xs ++ ys) = LF.join_sp xs ++ 32 :: LF.join_sp ys.
 Proof.
@@ -71,50 +69,11 @@ Section Spaced.
       cbv beta in X. rewrite H in X. exact X.
   Qed.
 
-  (* ---------------- the fragment *)
-  Definition spaced_atom (a : atom) : bool :=
-    match a with
-    | AIdent [w] => leqb (display_ident_part I w) w          (* written bare *)
-    | ALit (LBool _) | ALit LNull => true
-    | ALit (LInt z) => (0 <=? z)%Z && (Z.to_N z <=? L.i64_max)
-    | ALit (LStr s) => forallb printable_plain s
-    | AParam s => forallb param_char s
-    | _ => false
-    end.
-  Definition spaced_tok (t : tok) : bool :=
-    match t with
-    | TA a => spaced_atom a
-    | TS s false => (s <? nsym)%nat
-    | TAlias n => leqb (write_ident_part I n) n
-    | TPipe | TArrow => true
-    | _ => false
-    end.
-
-  (* the texts of a token (an alias is two lexer tokens) and the kinds they must lex to *)
-  Definition tok_texts (t : tok) : list str :=
-    match t with
-    | TAlias n => [write_ident_part I n; [61]]
-    | _ => [tok_text R t]
-    end.
-  Definition atom_kind (a : atom) : L.kind :=
-    match a with
-    | AIdent [w] => L.KIdent w
-    | ALit (LBool b) => L.KLiteral (L.LBool b)
-    | ALit LNull => L.KLiteral L.LNull
-    | ALit (LInt z) => L.KLiteral (L.LInt (Z.to_N z))
-    | ALit (LStr s) => L.KLiteral (L.LString s)
-    | AParam s => L.KParam s
-    | _ => L.KStart
-    end.
-  Definition tok_kinds (t : tok) : list L.kind :=
-    match t with
-    | TA a => [atom_kind a]
-    | TS s _ => [skind s]
-    | TAlias n => [L.KIdent n; L.KControl 61]
-    | TPipe => [L.KControl 124]
-    | TArrow => [arrow]
-    | _ => []
-    end.
+  (* ---------------- the fragment (Model/FmtLex.v) *)
+  Notation spaced_atom := (FmtLex.spaced_atom R).
+  Notation spaced_tok := (FmtLex.spaced_tok R nsym).
+  Notation tok_texts := (FmtLex.tok_texts R).
+  Notation tok_kinds := (FmtLex.tok_kinds skind arrow).
 
   (* ---------------- rendering = texts joined by single blanks *)
   Lemma spaced_space a b : spaced_tok a = true -> spaced_tok b = true -> space_between a b = true.
@@ -272,7 +231,7 @@ Section Spaced.
       assert (Lc : c < 128).
       { unfold in_ranges, alnum_ascii, in_range in Hc. cbn [existsb fst snd] in Hc.
         repeat (apply orb_true_iff in Hc as [Hc|Hc]); try discriminate Hc; apply andb_true_iff in Hc as [_ Hc]; apply N.leb_le in Hc; lia. }
-      rewrite (ascii_alnum c Lc), Hc. reflexivity.
+      rewrite (ascii_alnum c Lc). change (in_ranges alnum_ascii c) with (in_ranges [(48, 57); (65, 90); (97, 122)] c). rewrite Hc. reflexivity.
   Qed.
 
   Lemma tok_lexes t : spaced_tok t = true -> Forall2 lexes_as (tok_texts t) (tok_kinds t).
@@ -316,6 +275,104 @@ Section Spaced.
     - apply (LF.render_lex is_alpha is_alnum T WF); assumption.
     - apply LF.spans_kinds. clear - F2. induction F2; [reflexivity | cbn [length]; f_equal; assumption].
   Qed.
+
+  (* ---------------- back from the lexer's kinds to the tokens (FmtLex.untok) *)
+  Variable sym_of : L.kind -> option tok.
+  Notation untok := (FmtLex.untok sym_of).
+  Notation kind_tok := (FmtLex.kind_tok sym_of).
+  Hypothesis HBACK : FmtLex.back_ok nsym skind arrow sym_of = true.
+
+  Lemma back_facts :
+    (forall s, (s < nsym)%nat -> sym_of (skind s) = Some (TS s false) /\ is_eq_ctrl (skind s) = false /\ opkind (skind s) = true) /\
+    (sym_of arrow = Some TArrow /\ is_eq_ctrl arrow = false /\ opkind arrow = true) /\
+    sym_of (L.KControl 124) = Some TPipe.
+  Proof.
+    pose proof HBACK as HB. unfold FmtLex.back_ok in HB.
+    apply andb_true_iff in HB as [HB HP]. apply andb_true_iff in HB as [HB HA3]. apply andb_true_iff in HB as [HB HA2].
+    apply andb_true_iff in HB as [HS HA1].
+    split; [|split].
+    - intros s Hs. rewrite forallb_forall in HS. assert (Hin : In s (seq 0 nsym)) by (apply in_seq; lia).
+      specialize (HS s Hin). apply andb_true_iff in HS as [HS H3]. apply andb_true_iff in HS as [H1 H2].
+      apply negb_true_iff in H2. split; [|split; assumption].
+      destruct (sym_of (skind s)) as [t|]; [|discriminate H1]. destruct t; try discriminate H1.
+      destruct un; [discriminate H1|]. apply Nat.eqb_eq in H1. subst. reflexivity.
+    - apply negb_true_iff in HA2. split; [|split; assumption].
+      destruct (sym_of arrow) as [t|]; [|discriminate HA1]. destruct t; try discriminate HA1. reflexivity.
+    - destruct (sym_of (L.KControl 124)) as [t|]; [|discriminate HP]. destruct t; try discriminate HP. reflexivity.
+  Qed.
+
+  Lemma kinds_shape t : spaced_tok t = true -> (exists n, t = TAlias n) \/ (exists k, tok_kinds t = [k]).
+  Proof.
+    intro H. destruct t as [x|s un| | | | | | |n|n| | | | | | | | ]; cbn [FmtLex.spaced_tok] in H; try discriminate H;
+      cbn [FmtLex.tok_kinds]; try (right; eexists; reflexivity).
+    left. exists n. reflexivity.
+  Qed.
+
+  Lemma kind_tok_back t k : spaced_tok t = true -> tok_kinds t = [k] -> kind_tok k = Some t.
+  Proof.
+    destruct back_facts as [BS [[BA1 [BA2 BA3]] BP]].
+    intros H E. destruct t as [x|s un| | | | | | |n|n| | | | | | | | ]; cbn [FmtLex.spaced_tok] in H; try discriminate H;
+      cbn [FmtLex.tok_kinds] in E.
+    - injection E as <-. destruct x as [p|l|s|? ?|?|?|?]; cbn [FmtLex.spaced_atom] in H; try discriminate H.
+      + destruct p as [|w [|? ?]]; try discriminate H. reflexivity.
+      + destruct l; try discriminate H; cbn [FmtLex.atom_kind FmtLex.kind_tok]; try reflexivity.
+        apply andb_true_iff in H as [H _]. apply Z.leb_le in H. rewrite Z2N.id by exact H. reflexivity.
+      + reflexivity.
+    - destruct un; [discriminate H|]. apply Nat.ltb_lt in H. injection E as <-. destruct (BS s H) as [B1 [B2 B3]].
+      unfold FmtLex.kind_tok. destruct (skind s); try discriminate B3; exact B1.
+    - injection E as <-. exact BP.
+    - injection E as <-. unfold FmtLex.kind_tok. destruct arrow; try discriminate BA3; exact BA1.
+    - discriminate E.
+  Qed.
+
+  Lemma head_not_eq t k r : spaced_tok t = true -> tok_kinds t = k :: r -> is_eq_ctrl k = false.
+  Proof.
+    destruct back_facts as [BS [[BA1 [BA2 BA3]] BP]].
+    intros H E. destruct t as [x|s un| | | | | | |n|n| | | | | | | | ]; cbn [FmtLex.spaced_tok] in H; try discriminate H;
+      cbn [FmtLex.tok_kinds] in E; injection E as <- _; try reflexivity.
+    - destruct x as [[|w [|? ?]]|[]|?|? ?|?|?|?]; reflexivity.
+    - destruct un; [discriminate H|]. apply Nat.ltb_lt in H. apply (BS s H).
+    - exact BA2.
+  Qed.
+
+  Lemma untok_alias w r : untok (L.KIdent w :: L.KControl 61 :: r) = FmtLex.cons_tok (Some (TAlias w)) (untok r).
+  Proof. reflexivity. Qed.
+
+  Lemma untok_other k r : (forall k2 r2, r = k2 :: r2 -> is_eq_ctrl k2 = false) ->
+    untok (k :: r) = FmtLex.cons_tok (kind_tok k) (untok r).
+  Proof.
+    intro H. destruct r as [|k2 r2]; [destruct k; reflexivity|]. specialize (H k2 r2 eq_refl).
+    destruct k; try reflexivity.
+    match goal with |- FmtLex.untok _ (L.KIdent ?w :: _) = _ =>
+      change (untok (L.KIdent w :: k2 :: r2)) with
+        (if is_eq_ctrl k2 then FmtLex.cons_tok (Some (TAlias w)) (untok r2) else FmtLex.cons_tok (kind_tok (L.KIdent w)) (untok (k2 :: r2))) end.
+    rewrite H. reflexivity.
+  Qed.
+
+  Lemma untok_kinds ts : forallb spaced_tok ts = true -> untok (flat_map tok_kinds ts) = Some ts.
+  Proof.
+    induction ts as [|t ts IH]; [reflexivity|]. intro H. cbn [forallb] in H. apply andb_true_iff in H as [Ht Hts].
+    specialize (IH Hts). cbn [flat_map].
+    assert (HN : forall k2 r2, flat_map tok_kinds ts = k2 :: r2 -> is_eq_ctrl k2 = false).
+    { intros k2 r2 E. destruct ts as [|t2 ts2]; [discriminate E|]. cbn [forallb] in Hts. apply andb_true_iff in Hts as [H2 _].
+      cbn [flat_map] in E. destruct (tok_kinds t2) as [|k' r'] eqn:E2.
+      - destruct (kinds_shape t2 H2) as [[n ->]|[k Ek]]; [discriminate E2 | rewrite Ek in E2; discriminate E2].
+      - cbn [app] in E. injection E as Ek _. subst k2. exact (head_not_eq t2 k' r' H2 E2). }
+    destruct (kinds_shape t Ht) as [[n ->]|[k Ek]].
+    - cbn [FmtLex.tok_kinds app]. rewrite untok_alias, IH. reflexivity.
+    - rewrite Ek. cbn [app]. rewrite (untok_other k _ HN), (kind_tok_back t k Ht Ek), IH. reflexivity.
+  Qed.
+
+  (* the text-level round trip of the fragment: the rendered text lexes, and the lexer's kinds read back as the tokens *)
+  Theorem text_roundtrip ts : FmtLex.spaced R nsym ts = true ->
+    exists toks, L.lex is_alpha is_alnum T (render R ts) = Some (L.start_token :: toks) /\
+                 map L.tkind toks = flat_map tok_kinds ts /\ untok (map L.tkind toks) = Some ts.
+  Proof.
+    intro H. assert (N : ts <> []) by (intros ->; discriminate H).
+    assert (H' : forallb spaced_tok ts = true) by (destruct ts; [discriminate H | exact H]).
+    destruct (render_lexes ts H' N) as [toks [E1 E2]]. exists toks. split; [exact E1|]. split; [exact E2|].
+    rewrite E2. apply untok_kinds; exact H'.
+  Qed.
 End Spaced.
 
 (* ------------------------------------------------------------------ operator spellings *)
@@ -325,13 +382,7 @@ Section Symbols.
   Hypothesis TK : LexRelexDefs.relex_tables_ok T = true.
   Hypothesis FK : LF.forward_tables_ok T = true.
 
-  (* the kind a one- or two-character spelling lexes to: a control character, or an operator of the table *)
-  Definition sym_kind (txt : str) : option L.kind :=
-    match txt with
-    | [c] => if L.c_in c (L.t_controls T) then Some (L.KControl c) else None
-    | [a; b] => match find (fun o => leqb (fst o) [a; b]) (L.t_ops T) with Some o => Some (L.KOp (fst (snd o))) | None => None end
-    | _ => None
-    end.
+  Notation sym_kind := (FmtLex.sym_kind T).
 
   Lemma sym_kind_lexes txt k : sym_kind txt = Some k -> LF.lexes_as is_alpha is_alnum T txt k /\ LF.kind_finite k = true.
   Proof.
@@ -342,8 +393,6 @@ Section Symbols.
       apply find_some in E as [Hin Hl]. apply leqb_spec in Hl. destruct o as [tx [name ne]]. cbn [fst snd] in *. subst tx.
       split; [apply (LF.op_lexes is_alpha is_alnum T TK FK a b name ne); exact Hin | reflexivity].
   Qed.
-
-  Definition kind_or_start (o : option L.kind) : L.kind := match o with Some k => k | None => L.KStart end.
 
   Lemma symtab_lexes (tab : list str) : forallb (fun txt => match sym_kind txt with Some _ => true | None => false end) tab = true ->
     (forall s, (s < length tab)%nat -> LF.lexes_as is_alpha is_alnum T (nth s tab []) (kind_or_start (sym_kind (nth s tab [])))) /\
